@@ -30,21 +30,19 @@ EKU_SHAPES = [('1.3.6.1.5.5.7.3.20',), ('1.3.6.1.5.5.7.3.21', 'server'), ('1.3.6
               ('1.3.6.1.5.5.7.3',), ('any',), ('server', '1.3.6.1.5.5.7.3.3', '1.3.6.1.5.5.7.3.4'),
               ('server', 'client'), ('1.3.6.1.5.5.7.3.8', 'client', 'any'), ('!client',), ('!server',)]
 CERTS += [('cn1/' + '+'.join(e), ('alice',), e) for e in EKU_SHAPES]
+# common names that are blank: still common names (two CN attributes are two, whatever they hold)
+CERTS += [('cn2-blank-first/client', (' ', 'alice'), 'client'), ('cn2-blank-last/client', ('alice', ' '), 'client'),
+          ('cn2-blank-both/client', (' ', '  '), 'client'), ('cn1-blank/client', (' ',), 'client'),
+          ('cn3/client', ('alice', 'bob', 'carol'), 'client')]
 
 # scripted answers of one SLUGS service, encoded in its URL
 SLUGS_SCRIPTS = ['ok:g1', 'ok:', 'ok:g1,g2', 'ok-nokey', 'user404', 'groups404', 'connerr1', 'connerr2',
                  'nonjson', 'user500', 'groups500']
 
 
-class _Resp(object):
-    def __init__(self, status, body):
-        self.status_code = status
-        self._body = body
-
-    def json(self):
-        if self._body == 'NONJSON':
-            raise ValueError("No JSON object could be decoded")
-        return self._body
+def _Resp(status, body, url='http://slugs/'):
+    # a real requests.Response, so that whatever the connector asks of it behaves as in production
+    return W.http_response(url, status, body)
 
 
 class ScriptedRequests(object):
@@ -53,34 +51,39 @@ class ScriptedRequests(object):
     def __init__(self):
         self.calls = []
 
+    def __getattr__(self, name):          # exceptions, codes, ...: the real module's
+        import requests
+        return getattr(requests, name)
+
     def get(self, url, timeout=None):
         self.calls.append(url)
         assert url.startswith('http://slugs/S='), url
+        R = lambda st, b: W.http_response(url, st, b)      # noqa: E731
         script, _, tail = url[len('http://slugs/S='):].partition('/users/')
         is_groups = tail.endswith('/groups')
         if script.startswith('ok:'):
             groups = [g for g in script[3:].split(',') if g]
-            return _Resp(200, {'groups': groups} if is_groups else {})
+            return R(200, {'groups': groups} if is_groups else {})
         if script == 'ok-nokey':
-            return _Resp(200, {})
+            return R(200, {})
         if script == 'user404':
-            return _Resp(404, {}) if not is_groups else _Resp(200, {'groups': ['g1']})
+            return R(404, {}) if not is_groups else R(200, {'groups': ['g1']})
         if script == 'groups404':
-            return _Resp(404, {}) if is_groups else _Resp(200, {})
+            return R(404, {}) if is_groups else R(200, {})
         if script == 'connerr1':
             if not is_groups:
-                raise IOError("connection refused")
-            return _Resp(200, {'groups': ['g1']})
+                raise W.http_connection_error(url, 'Connection refused')
+            return R(200, {'groups': ['g1']})
         if script == 'connerr2':
             if is_groups:
-                raise IOError("connection reset")
-            return _Resp(200, {})
+                raise W.http_connection_error(url, 'Connection reset by peer')
+            return R(200, {})
         if script == 'nonjson':
-            return _Resp(200, 'NONJSON')
+            return R(200, 'NONJSON')
         if script == 'user500':
-            return _Resp(500, {}) if not is_groups else _Resp(200, {'groups': ['g1']})
+            return R(500, {}) if not is_groups else R(200, {'groups': ['g1']})
         if script == 'groups500':
-            return _Resp(500, 'NONJSON') if is_groups else _Resp(200, {})
+            return R(500, 'NONJSON') if is_groups else R(200, {})
         raise AssertionError(script)
 
 
